@@ -3,6 +3,7 @@ package transactions
 import (
 	"context"
 	"errors"
+	"sync"
 	"time"
 )
 
@@ -13,7 +14,8 @@ var ErrTimeout = errors.New("transaction timeout")
 // TimedTransaction fails if Success is not called before the given timeout.
 type TimedTransaction struct {
 	*TransactionBase
-	timer *time.Timer
+	timerMutex sync.Mutex
+	timer      *time.Timer
 }
 
 // NewTimedTransaction creates a new TimedTransaction.
@@ -21,7 +23,10 @@ func NewTimedTransaction(ctx context.Context, timeout time.Duration, finally Fin
 	t := &TimedTransaction{
 		TransactionBase: NewTransactionBase(finally),
 	}
+	// The timer can fire before AfterFunc returns (zero timeout).
+	t.timerMutex.Lock()
 	t.timer = time.AfterFunc(timeout, func() { t.Fail(ErrTimeout) })
+	t.timerMutex.Unlock()
 	go func() {
 		select {
 		case <-ctx.Done():
@@ -46,5 +51,8 @@ func (t *TimedTransaction) Fail(e error) {
 }
 
 func (t *TimedTransaction) stopTimer() {
+	t.timerMutex.Lock()
+	defer t.timerMutex.Unlock()
+
 	t.timer.Stop()
 }
